@@ -44,7 +44,7 @@ def run_shard(ctx):
     Mix = f"{P}Mix"
     for case in ctx.cases(ctx.params["cases"]):
         rng = ctx.rng(case)
-        tg = G.TreeGen(rng, U, max_nodes=rng.choice([3, 9, 20]), max_depth=6, max_width=4, share=0.2 if case % 3 == 0 else 0.0, twin=0.25, p_origin=0.4, hostile=0.05)
+        tg = G.TreeGen(rng, U, max_nodes=rng.choice([3, 9, 20]), max_depth=6, max_width=4, share=0.2 if case % 3 == 0 else 0.0, twin=0.25, p_origin=0.4, hostile=0.05, exclude=(f"{P}Ser",))
         s = tg.tree()
         stale_twin = False
         if case % 4 == 1:
@@ -223,7 +223,7 @@ def run_shard(ctx):
                 ctrl.detach_self()
                 if new.id != cid:
                     bad("replace-id", "replace result's id differs from the id of a fresh construction with the original absent", got=new.id, control=cid, **info)
-                only_nc = all(not next(f for f in init_fields if f.name == k).compare for k in changes)
+                only_nc = all((lambda f: f.role == "prop" and not f.compare)(next(f for f in init_fields if f.name == k)) for k in changes)
                 if only_nc:
                     ctx.count("replace_noncompare_only")
                     if not twin_registered and new.id != n.id:
